@@ -151,6 +151,9 @@ class Run(object):
                               "onions/current": "", "onions/detached": ""})
         self.sim.conf["hiddenserviceoptions"] = None
         self.sim.handlers["ADD_ONION"] = lambda line: ("250-ServiceID=%s\r\n250-PrivateKey=ED25519-V3:a2V5\r\n250 OK\r\n" % SID).encode()
+        if self.fault == "subscribe":
+            # this Tor refuses the subscription to its descriptor events (and accepts everything else)
+            self.sim.handlers["SETEVENTS"] = lambda line: (b'552 Unrecognized event "HS_DESC"\r\n' if "HS_DESC" in line.split() else None)
 
     def from_string(self, public, **kw):
         """what serverFromString(reactor, "onion:<public>:k=v:...") does once Twisted has found the parser plugin"""
@@ -394,6 +397,8 @@ class Run(object):
                     why = "cancel"
                 elif v.check(TorDisconnectError):
                     why = "disconnect"
+                elif v.check(TorProtocolError) and "Unrecognized event" in str(v.value):
+                    why = "subscribe"
                 elif v.check(TorProtocolError):
                     why = "reject"
                 elif v.check(RuntimeError) and "upload" in str(v.value).lower():
@@ -439,6 +444,7 @@ SCRIPTS = {
     "disconnect_wait": ["Listen", "ConfigReady", "CreateReply", "Disconnect"],
     "disconnect_unsub": ["Listen", "ConfigReady", "CreateReply", "WaitOver", "Disconnect"],
     "cancel_wait": ["Listen", "ConfigReady", "CreateReply", "Cancel", "UnsubAck"],
+    "subscribe": ["Listen", "ConfigReady", "CreateReply"],
     # listen() again on the same endpoint: a retry after Tor refused the service; a restart after the port was stopped
     "reject_retry": ["Listen", "ConfigReady", "CreateReply", "Relisten", "CreateReply", "WaitOver", "UnsubAck", "StopListening"],
     "none_relisten": ["Listen", "ConfigReady", "CreateReply", "WaitOver", "UnsubAck", "StopListening", "Relisten", "StopListening"],
